@@ -8,6 +8,7 @@ import (
 	"os"
 	"sort"
 	"strings"
+	"sync"
 	"testing"
 	"unicode/utf8"
 
@@ -52,6 +53,8 @@ type c14Case struct {
 	Status  int                `json:"status,omitempty"`
 	Label   string             `json:"label,omitempty"`
 	Filter  *engine.FilterSpec `json:"filter,omitempty"`
+	// SameName: the case presumes the harness lints registered under one name for all three kinds
+	SameName bool `json:"same_name,omitempty"`
 }
 
 func roundTripRS(rs *zlint.ResultSet) (string, string) {
@@ -236,6 +239,9 @@ func judgeC14Inner(rec *stats.Rec, c c14Case) (string, string) {
 		}
 		rec.NT(stats.HashS("token", c.Label))
 	case "writejson":
+		if c.SameName {
+			registerSameName()
+		}
 		var reg lint.Registry = lint.GlobalRegistry()
 		if c.Filter != nil {
 			o, err := c.Filter.Options()
@@ -250,13 +256,22 @@ func judgeC14Inner(rec *stats.Rec, c c14Case) (string, string) {
 		}
 		var buf bytes.Buffer
 		reg.WriteJSON(&buf)
-		want := map[string]lint.LintMetadata{}
+		// one line per registered lint of any kind: the multiset of decoded (name, description, citation,
+		// source) tuples equals the multiset over the three per-kind listings (a name may be registered once
+		// per kind)
+		key := func(m lint.LintMetadata) string {
+			return m.Name + "\x00" + jsonString(m.Description) + "\x00" + jsonString(m.Citation) + "\x00" + string(m.Source)
+		}
+		want := map[string]int{}
+		wantName := map[string]bool{}
+		total := 0
 		for _, l := range registryLints(reg) {
-			want[l.Name] = l.Meta
+			want[key(l.Meta)]++
+			wantName[l.Name] = true
+			total++
 		}
 		sc := bufio.NewScanner(&buf)
 		sc.Buffer(make([]byte, 1<<20), 1<<20)
-		seen := map[string]int{}
 		lines := 0
 		for sc.Scan() {
 			ln := sc.Text()
@@ -267,21 +282,20 @@ func judgeC14Inner(rec *stats.Rec, c c14Case) (string, string) {
 			if err := dec.Decode(&m); err != nil {
 				return "writejson-line", fmt.Sprintf("line %d does not decode to lint metadata: %v (%s)", lines, err, short(ln, 120))
 			}
-			w, ok := want[m.Name]
-			if !ok {
+			if !wantName[m.Name] {
 				return "writejson-unknown|" + m.Name, "listing names a lint that is not in the registry"
 			}
-			if m.Description != jsonString(w.Description) || m.Citation != jsonString(w.Citation) || m.Source != w.Source {
-				return "writejson-meta|" + m.Name, "listing line does not decode to the lint's description / citation / source"
+			if want[key(m)] == 0 {
+				return "writejson-meta|" + m.Name, "listing line does not decode to the description / citation / source of a registered lint of that name (or lists it once too often)"
 			}
-			seen[m.Name]++
+			want[key(m)]--
 		}
-		if lines != len(reg.Names()) {
-			return "writejson-count", fmt.Sprintf("%d lines for %d registered lints", lines, len(reg.Names()))
+		if lines != total {
+			return "writejson-count", fmt.Sprintf("%d lines for %d registered lints", lines, total)
 		}
-		for n := range want {
-			if seen[n] != 1 {
-				return "writejson-multiset|" + n, fmt.Sprintf("lint listed %d times", seen[n])
+		for k, n := range want {
+			if n != 0 {
+				return "writejson-multiset|" + strings.SplitN(k, "\x00", 2)[0], "a registered lint is missing from the listing"
 			}
 		}
 		b, _ := json.Marshal(c.Filter)
@@ -457,6 +471,31 @@ func TestC14(t *testing.T) {
 		}
 	})
 	_ = sort.Strings
+	// one name registered once per kind (names are unique per kind only): the listing has a line for each
+	registerSameName()
+	for _, f := range []*engine.FilterSpec{nil, {IncludeNames: []string{"e_verif_same_name"}}, {ExcludeNames: []string{"e_ca_country_name_missing"}}, {IncludeSources: []string{"RFC5280", "RFC6960"}}} {
+		c := c14Case{What: "writejson", Filter: f, SameName: true}
+		rec.Eval()
+		rec.Class("writejson_same_name")
+		if sig, msg := judgeC14(rec, c); msg != "" {
+			if rec.Report("c14", sig, msg, c) {
+				t.Errorf("c14 listing with one name registered for three kinds: %s: %s", sig, msg)
+			}
+		}
+	}
+}
+
+var sameNameOnce sync.Once
+
+func registerSameName() {
+	sameNameOnce.Do(func() {
+		lint.RegisterCertificateLint(&lint.CertificateLint{LintMetadata: lint.LintMetadata{Name: "e_verif_same_name", Description: "the certificate lint of that name", Citation: "cert", Source: lint.Community},
+			Lint: func() lint.CertificateLintInterface { return lateLint{} }})
+		lint.RegisterRevocationListLint(&lint.RevocationListLint{LintMetadata: lint.LintMetadata{Name: "e_verif_same_name", Description: "the CRL lint of that name", Citation: "crl", Source: lint.RFC5280},
+			Lint: func() lint.RevocationListLintInterface { return lateCRL{} }})
+		lint.RegisterOcspResponseLint(&lint.OcspResponseLint{LintMetadata: lint.LintMetadata{Name: "e_verif_same_name", Description: "the OCSP lint of that name", Citation: "ocsp", Source: lint.RFC6960},
+			Lint: func() lint.OcspResponseLintInterface { return lateOCSP{} }})
+	})
 }
 
 func init() {
